@@ -207,7 +207,7 @@ C20(c, o) ==
                "work " \o Str(WorkOf(o)) \o " exceeds the quadratic bound for IR size " \o Str(IrSize(o)))
       \cup Chk(o.micros < 20000000, "generation took " \o Str(o.micros) \o " us")
       (* CPU time of the calling thread (insensitive to machine load): "well under a second" with a 2x margin *)
-      \cup Chk(~Has(o, "cpu_micros") \/ o.cpu_micros < 2000000, "generation used " \o Str(o.cpu_micros) \o " us of CPU for an IR of size " \o Str(IrSize(o))) ]
+      \cup Chk(~Has(o, "cpu_micros") \/ o.cpu_micros < 500000 + 200 * IrSize(o), "generation used " \o Str(o.cpu_micros) \o " us of CPU for an IR of size " \o Str(IrSize(o))) ]
 
 (* ------------------------------------------------------------------ C13 (static part) *)
 C13(c, o) ==
